@@ -142,7 +142,7 @@ const EFFECT_CHUNK: usize = 120;
 const AGG: usize = usize::MAX - 1;
 
 const AGG_CHUNK: usize = 100;
-const AGG_TYS: [&str; 2] = ["i32", "i64"];
+const AGG_TYS: [&str; 3] = ["i32", "i64", agg::CONST_TAG];
 
 /// (element type, programs) of the aggregate family, see agg.rs
 fn agg_programs() -> &'static Vec<(&'static str, Vec<agg::AggProg>)> {
@@ -164,7 +164,7 @@ fn agg_units(_cfg: &Cfg) -> Vec<(usize, usize)> {
 fn agg_inputs(t: &str) -> Vec<(i64, i64)> {
     // moderate values: the evaluator (built with overflow checks) stops loudly on wrapping
     // arithmetic, and offsets, not arithmetic, are the subject here; one wide value per type
-    let wide = if t == "i32" { 1 << 20 } else { 1i64 << 40 };
+    let wide = if t != "i64" { 1 << 20 } else { 1i64 << 40 };
     let one = [0i64, 1, 2, 7, -1, -5, 100, wide, -wide];
     let mut v = vec![];
     for a in one {
@@ -186,7 +186,7 @@ fn run_aggregates(c: usize, cx: &mut Cx) {
     for p in progs {
         src.push_str(&p.src);
     }
-    let rt = host::runtime();
+    let rt = if *t == agg::CONST_TAG { agg::const_runtime() } else { host::runtime() };
     let tree = roto::FileTree::test_file("c20a.roto", &src, 0);
     let lowered = match vcore::util::catch(|| roto::verif::lower(tree, &rt)) {
         Ok(Ok(l)) => l,
@@ -202,7 +202,7 @@ fn run_aggregates(c: usize, cx: &mut Cx) {
         }
     };
     let inputs = agg_inputs(t);
-    let scalar = |x: i64| if *t == "i32" { Scalar::I32(x as i32) } else { Scalar::I64(x) };
+    let scalar = |x: i64| if *t != "i64" { Scalar::I32(x as i32) } else { Scalar::I64(x) };
     let mut results: Vec<Vec<Option<Option<Scalar>>>> = vec![];
     for (i, p) in progs.iter().enumerate() {
         let mut row = vec![];
@@ -243,7 +243,7 @@ fn run_aggregates(c: usize, cx: &mut Cx) {
         B(TypedFunc<NoCtx, fn(i64, i64) -> i64>),
     }
     for (i, p) in progs.iter().enumerate() {
-        let f = if *t == "i32" { pkg.get_function(&p.name).map(F::A).map_err(|e| e.to_string()) } else { pkg.get_function(&p.name).map(F::B).map_err(|e| e.to_string()) };
+        let f = if *t != "i64" { pkg.get_function(&p.name).map(F::A).map_err(|e| e.to_string()) } else { pkg.get_function(&p.name).map(F::B).map_err(|e| e.to_string()) };
         let Ok(f) = f else {
             cx.count("agg_get_function_failed", 1);
             continue;
